@@ -819,7 +819,7 @@ type c19Event struct {
 func TestVerifC19NUMARestart(t *testing.T) {
 	pl, lister := c19Plugin(t)
 	ctx := context.TODO()
-	kit.Run(t, kit.Config{Property: "C19", Unit: "numa-restart", Quick: 3000, Thorough: 60000,
+	kit.Run(t, kit.Config{Property: "C19", Unit: "numa-restart", Quick: 5000, Thorough: 80000,
 		Rule: "histories of 10-60 operations on 2 nodes (random topology, reserved CPUs, sharing limit 1-2, NUMA-policy / CPU-bind-policy labels) of the real nodenumaresource Plugin: schedule a pod or reservation (PreFilter, Filter with the real NUMA topology manager, Reserve), PreBind + bind, unreserve, metadata update, terminate, delete, informer echo to the live scheduler; cut after a bind; in-flight objects unreserved; surviving objects replayed into a fresh resourceManager through the real pod / reservation event handlers in random order with 20% duplicate adds and 20% no-op updates; live vs replayed NodeAllocation compared; distinct = (object kind, request class, node policy labels, cpuset string form, #NUMA nodes with amounts, outcome) and (replay event kind, object state); non-trivial = at least two surviving allocations on one node and at least one allocation of the history that does not survive (unreserved, terminated, deleted, in flight)"},
 		func(c *kit.Case) {
 			r := c.R
